@@ -43,6 +43,9 @@ type Case struct {
 	// PoolBytes/PoolKind: history in the handlers' shared buffer pool - right before the record, another
 	// record whose line is about PoolBytes long is written through a handler of PoolKind (0 nano, 1 text,
 	// 2 json) on the same goroutine, so that the buffer it grew is the one this record draws next
+	// Thr: the handler's threshold (index into levels). A record below it must leave no byte; every
+	// other record is judged as usual. Not used with Via 3 (Handle does not consult the threshold).
+	Thr       int `json:"thr,omitempty"`
 	PoolBytes int `json:"pool_bytes,omitempty"`
 	PoolKind  int `json:"pool_kind,omitempty"`
 }
@@ -184,7 +187,10 @@ func runOnce(cs Case, st *stats) (key, expected, observed string) {
 		cs.Rec.Level = 3 // Panic / Panicf log at ERROR
 	}
 	var out capture
-	var h logger.Handler = logger.NewTextHandler(&out, logger.NewOptions(logger.LevelDebug, false, cs.AddSource))
+	if cs.Via == 3 {
+		cs.Thr = 0
+	}
+	var h logger.Handler = logger.NewTextHandler(&out, logger.NewOptions(levels[cs.Thr], false, cs.AddSource))
 	var pv any
 	var line int
 	var t0, t1, chosen time.Time
@@ -228,6 +234,12 @@ func runOnce(cs Case, st *stats) (key, expected, observed string) {
 	}
 	b := out.buf.Bytes()
 	show := func() string { return fmt.Sprintf("line %q", clip(b, 1500)) }
+	if cs.Rec.Level < cs.Thr {
+		if len(b) != 0 {
+			return "below-threshold", fmt.Sprintf("no output for a %s record on a handler with threshold %s", levelNames[cs.Rec.Level], levelNames[cs.Thr]), show()
+		}
+		return "", "", ""
+	}
 	if len(b) == 0 || b[len(b)-1] != '\n' || bytes.IndexByte(b[:len(b)-1], '\n') >= 0 {
 		return "framing", "exactly one newline-terminated line", show()
 	}
@@ -689,6 +701,11 @@ func (mn mon) Run(sh drv.Shard, c *drv.Ctx) {
 		for i := 0; i < a.Count; i++ {
 			rec := attrgen.RandRec(r)
 			cs := Case{Rec: rec, Via: r.Intn(8), Decoys: r.Intn(2) == 0, AddSource: r.Intn(3) == 0, TimeNs: r.Int63n(7e18), ZoneSec: (r.Intn(27) - 13) * 1800}
+			if x := r.Intn(4); x == 0 {
+				cs.Thr = r.Intn(5) // any threshold: the record may be below it
+			} else if x == 1 && rec.Level > 0 {
+				cs.Thr = 1 + r.Intn(rec.Level) // a threshold above Debug that lets the record through
+			}
 			if cs.Via == 2 {
 				for i := range cs.Rec.Attrs {
 					cs.Rec.Attrs[i].Pair = false
